@@ -217,6 +217,8 @@ def m_get(ctx):
     idx = scalar_arg(ctx, a1)
     if idx is None:
         return ctx.top_ret()
+    for h in ctx.I.hooks:
+        h("seq_get", interp=ctx.I, ctx=ctx, seq=v, index=idx)
     ln = len_sym(ctx, v)
     d = S.term(idx).sub(S.term(ln))
     r = Ref(ref.cell, ref.path + (("idx", idx),), ref.mut) if ref is not None and ref.cell is not None else Ref(None)
